@@ -586,6 +586,9 @@ func (s *SweepingProvider) schedulePrefixNoLock(prefix bitstr.Key, justReprovide
 		return
 	}
 	// Unschedule superstrings in schedule if any.
+	if !justReprovided {
+		verifPoint("schedule:subsume", string(prefix))
+	}
 	s.unscheduleSubsumedPrefixesNoLock(prefix)
 
 	s.schedule.Add(prefix, nextReprovideTime)
